@@ -233,6 +233,91 @@ def unroll_constant_loops(stmts: list) -> list:
             out.extend(unroll_constant_loops(body))
     return out
 
+def single_assignment_locals(func: ast.FunctionDef) -> dict:
+    """Locals of ``func`` that are bound exactly once, by a plain top-level ``name = expr`` (or a tuple
+    unpacking of a tuple literal), and never re-bound, augmented or deleted anywhere in the function.
+    Such a name denotes the value of its expression wherever it is read (provided the function does
+    not mutate what the expression reads in between - callers use this for small pure methods)."""
+    counts: dict[str, int] = {}
+    defs: dict[str, ast.expr] = {}
+    params = {a.arg for a in func.args.posonlyargs + func.args.args + func.args.kwonlyargs}
+    for n in ast.walk(func):
+        if isinstance(n, (ast.FunctionDef, ast.AsyncFunctionDef, ast.Lambda)) and n is not func:
+            continue
+        stores = []
+        if isinstance(n, ast.Assign):
+            for t in n.targets:
+                stores += [x for x in ast.walk(t) if isinstance(x, ast.Name)]
+        elif isinstance(n, (ast.AugAssign, ast.AnnAssign)):
+            stores += [x for x in ast.walk(n.target) if isinstance(x, ast.Name) and isinstance(x.ctx, ast.Store)]
+        elif isinstance(n, (ast.For, ast.comprehension)):
+            stores += [x for x in ast.walk(n.target) if isinstance(x, ast.Name)]
+        elif isinstance(n, (ast.With,)):
+            for it in n.items:
+                if it.optional_vars is not None:
+                    stores += [x for x in ast.walk(it.optional_vars) if isinstance(x, ast.Name)]
+        elif isinstance(n, ast.NamedExpr):
+            stores.append(n.target)
+        for x in stores:
+            counts[x.id] = counts.get(x.id, 0) + (2 if isinstance(n, (ast.AugAssign, ast.For, ast.comprehension, ast.NamedExpr)) else 1)
+    for st in func.body:
+        if isinstance(st, ast.Assign) and len(st.targets) == 1:
+            t = st.targets[0]
+            if isinstance(t, ast.Name) and counts.get(t.id) == 1 and t.id not in params:
+                defs[t.id] = st.value
+            elif isinstance(t, ast.Tuple) and isinstance(st.value, ast.Tuple) and len(t.elts) == len(st.value.elts):
+                for x, v in zip(t.elts, st.value.elts):
+                    if isinstance(x, ast.Name) and counts.get(x.id) == 1 and x.id not in params:
+                        defs[x.id] = v
+    return defs
+
+
+def expand_locals(e: ast.expr, defs: dict, depth: int = 0) -> ast.expr:
+    """``e`` with every single-assignment local replaced (recursively) by its defining expression."""
+    import copy as _copy
+
+    if depth > 8:
+        return e
+
+    class Sub(ast.NodeTransformer):
+        def visit_Name(self, n):  # noqa: N802
+            if isinstance(n.ctx, ast.Load) and n.id in defs:
+                return expand_locals(_copy.deepcopy(defs[n.id]), defs, depth + 1)
+            return n
+
+    return ast.fix_missing_locations(Sub().visit(_copy.deepcopy(e)))
+
+def dict_store_keys(func: ast.FunctionDef, target_text: str) -> set:
+    """Constant keys stored into the dict named ``target_text`` (e.g. ``self._statistic_types``)
+    anywhere in ``func``: ``d[k] = v``, ``d = {...}``, ``d.update({...})`` / ``d.update(k=v)``,
+    ``d |= {...}``, ``d.setdefault(k, v)``."""
+    out = set()
+
+    def keys_of(d):
+        if isinstance(d, ast.Dict):
+            return {k.value for k in d.keys if isinstance(k, ast.Constant)}
+        if isinstance(d, ast.Call) and norm(d.func) == "dict":
+            return {kw.arg for kw in d.keywords if kw.arg}
+        return set()
+
+    for n in ast.walk(func):
+        if isinstance(n, ast.Assign):
+            for t in n.targets:
+                if isinstance(t, ast.Subscript) and norm(t.value) == target_text and isinstance(t.slice, ast.Constant):
+                    out.add(t.slice.value)
+                if norm(t) == target_text:
+                    out |= keys_of(n.value)
+        if isinstance(n, ast.AugAssign) and norm(n.target) == target_text and isinstance(n.op, ast.BitOr):
+            out |= keys_of(n.value)
+        if isinstance(n, ast.Call) and isinstance(n.func, ast.Attribute) and norm(n.func.value) == target_text:
+            if n.func.attr == "update":
+                for a in n.args:
+                    out |= keys_of(a)
+                out |= {kw.arg for kw in n.keywords if kw.arg}
+            if n.func.attr == "setdefault" and n.args and isinstance(n.args[0], ast.Constant):
+                out.add(n.args[0].value)
+    return out
+
 def _decorator_name(d: ast.expr) -> str:
     if isinstance(d, ast.Call):
         d = d.func
